@@ -306,6 +306,7 @@ func (f *fetcher) dedupFetch(req *http.Request, key cache.CacheKey, clientHd *he
 	fetchedObj, err, shared := f.group.Do(key.Hex, func() (any, error) {
 		return f.getFromCacheOrFetch(req, key, clientHd)
 	})
+	verifYield("fetch.afterDo")
 	if err != nil {
 		if errors.Is(err, ErrNotCacheable) {
 			slog.Debug("Request was not cacheable in singleflight, falling back to direct fetch", "url", req.URL)
